@@ -749,6 +749,10 @@ func oracleC01(e *Env, i int, op *Op, res string, before map[uint32]bool) *Viola
 				lastMD = k
 			}
 		}
+		if lastMD < 0 && di.DT != 0x400A && di.DT != 0x400B && !bytes.Equal(rc.b, make([]byte, len(rc.b))) {
+			// given no metadata at all, the object has none — whatever the slot it landed in held before
+			return &Violation{Prop: "C01", Key: "C01:metadata", What: fmt.Sprintf("object %d was given no metadata and reads back with %x…", d.ID(), trimNul(rc.b)), Op: i}
+		}
 		if lastMD >= 0 && di.Opts[lastMD].Kind == "md" && di.Opts[lastMD].MD.Kind == "raw" {
 			exp := make([]byte, 384)
 			copy(exp, di.Opts[lastMD].MD.B)
